@@ -446,6 +446,9 @@ impl<'a> WalReader<'a> {
         file.seek(SeekFrom::Start(0))?;
         file.read_exact(header.as_mut())?;
 
+        // Only blocks that a flush has recorded in the on-disk header exist in the file.
+        let total_blocks = total_blocks.min(header.metadata().wal_header.total_blocks);
+
         let read_ahead_size = read_ahead_size.next_multiple_of(block_size);
         let num_blocks_to_read =
             (read_ahead_size / block_size).min(total_blocks.saturating_sub(1) as usize);
